@@ -14,8 +14,9 @@ def file_sig(p):
 
 
 def dir_state(d) -> dict:
-    """name -> [sha256, size, inode] for every regular file of the directory."""
-    return {q.name: file_sig(q) for q in sorted(Path(d).iterdir()) if q.is_file()}
+    """name -> [sha256, size, inode] for every regular file of the directory (files of sub-directories under their relative path)."""
+    d = Path(d)
+    return {q.relative_to(d).as_posix(): file_sig(q) for q in sorted(d.rglob("*")) if q.is_file() and not q.is_symlink()}
 
 
 def first_diff_offset(a: bytes, b: bytes):
